@@ -326,6 +326,9 @@ def hazard_task(pos, name):
 def task(item):
     if item[0] == 'hazard':
         return hazard_task(item[1], item[2])
+    if item[0] == 'isolated':
+        from checks import c10
+        return c10.isolated_default_task(item)
     model, trace, pname, flags, depth = item
     specs = render.render(model)
     out = impl.compile_specs(specs)
@@ -381,6 +384,18 @@ def run(tier, seed):
         r.sample({'profile': pn, 'trace': list(tr), 'specs': render.render(s)})
     hazards = [('hazard', 'field', n) for n in HAZARD_FIELDS] + [('hazard', 'type', n) for n in HAZARD_TYPES] + [('hazard', 'namespace', n) for n in HAZARD_NAMESPACES]
     r.bounds['hazard_identifiers'] = len(hazards)
+    # modules that contain a single defaulted field (directly typed, through a local / imported / chained alias): whatever the
+    # default needs (imports, helper names) must be brought in by that one field
+    from mc import paramspace
+    from mc.machine import valid_literals
+    kinds_seen = set()
+    for t in paramspace.valid_param_types('thorough'):
+        lits = list(valid_literals(t))
+        if not lits or t.kind in kinds_seen:
+            continue
+        kinds_seen.add(t.kind)
+        for how in ('direct', 'local-alias', 'imported-alias', 'alias-chain-over-three-namespaces'):
+            hazards.append(('isolated', t, lits[0], how))
     r.run_tasks(task, list(states) + hazards, budget=300, chunksize=8)
     r.assumptions = ['identifiers of the explored models are already in the case style of the generated names (name styles: see DESIGN)',
                      'representation of tag-reference and timestamp route attributes in generated code is not judged']
